@@ -5,7 +5,7 @@ Python `int` ↦ `Int`.  Python operators are modelled with Python's semantics:
 `%` is floor-mod (`Int.fmod`, `ZeroDivisionError` for 0), `abs` is `|·|`, `<<`/`>>`
 raise `ValueError` for a negative count, `a << b = a * 2^b`, `a >> b = ⌊a / 2^b⌋`.
 The model follows the source after the two `fix:` commits recorded in
-findings/C38.json (`%` evaluated by `irem`, chain constants passed through `correct`).
+findings/C38.json (`%` evaluated by `irem`, chain constants passed through `cast`).
 `value.bit_length()` ↦ `bitLength` (0 for 0, else ⌊log2⌋+1).
 The SSA graph below an instruction is viewed as an expression tree (`Expr`):
 operands are followed through their `a`/`b`/`src` pointers exactly as
@@ -156,8 +156,10 @@ inductive Action
   deriving DecidableEq, Repr
 
 /-- the constant of the chain rewrites:
-      value = correct(a.value + b.value, a.ty); cn = ir.Const(value, "new_fold", a.ty) -/
-def chainConst (ty : Typ) (va vb : Int) : Int := correct (va + vb) ty
+      value = cast(a.value + b.value, a.ty); cn = ir.Const(value, "new_fold", a.ty)
+    (`cast` = `correct` for the integer types modelled here; for `ptr`/float types, which are not
+    modelled, the Python `cast` returns the plain sum) -/
+def chainConst (ty : Typ) (va vb : Int) : Int := cast (va + vb) ty
 
 /-- body of the loop in `ConstantFolder.on_block` for one instruction -/
 def onInstr (ins : Expr) : Except Err Action :=
